@@ -15,10 +15,10 @@ import (
 // after the script is exhausted every connection is healthy.
 
 type UpstreamAttempt struct {
-	Kind  string `json:"kind"`            // healthy | refuse | reset | neverack | late | wrongid | stopreading | silent (accepts, never sends or reads anything)
-	After int    `json:"after,omitempty"` // reset: number of messages received (and acknowledged) before the reset
-	AckLast bool `json:"ackLast,omitempty"` // reset: whether the message that triggers the reset is still acknowledged... (false = received but never acknowledged)
-	Delay int    `json:"delay,omitempty"` // late: milliseconds before each ACK
+	Kind    string `json:"kind"`              // healthy | refuse | reset | neverack | late | wrongid | stopreading | silent (accepts, never sends or reads anything)
+	After   int    `json:"after,omitempty"`   // reset: number of messages received (and acknowledged) before the reset
+	AckLast bool   `json:"ackLast,omitempty"` // reset: whether the message that triggers the reset is still acknowledged... (false = received but never acknowledged)
+	Delay   int    `json:"delay,omitempty"`   // late: milliseconds before each ACK
 }
 
 // RecvMessage is one completely received Forward message.
@@ -27,23 +27,25 @@ type RecvMessage struct {
 	Conn    int // upstream connection index (accept order)
 	Msg     *ForwardMessage
 	Raw     []byte
-	Acked   bool // the ACK was written successfully
-	AckSeq  int  // global index of the ack event
+	Acked   bool      // the ACK was written successfully
+	At      time.Time // when the message had been received completely
+	AckAt   time.Time // when the ACK had been written
+	AckSeq  int       // global index of the ack event
 }
 
 type FakeForward struct {
-	ln       net.Listener
-	Addr     string
-	mu       sync.Mutex
-	script   []UpstreamAttempt
-	accepted int
-	Messages []*RecvMessage
-	events   int
-	conns    []net.Conn
-	closed   bool
-	down     bool
-	wg       sync.WaitGroup
-	Pings    int
+	ln           net.Listener
+	Addr         string
+	mu           sync.Mutex
+	script       []UpstreamAttempt
+	accepted     int
+	Messages     []*RecvMessage
+	events       int
+	conns        []net.Conn
+	closed       bool
+	down         bool
+	wg           sync.WaitGroup
+	Pings        int
 	DecodeErrors []string
 	SmallRecvBuf bool
 	Secret       string // non-empty: the server performs the Forward handshake (HELO/PING/PONG) with this shared key on every connection
@@ -249,7 +251,7 @@ func (f *FakeForward) serve(idx int, c net.Conn, at UpstreamAttempt) {
 					continue // ping: no ACK expected
 				}
 				received++
-				rm := &RecvMessage{Conn: idx, Msg: msg, Raw: raw}
+				rm := &RecvMessage{Conn: idx, Msg: msg, Raw: raw, At: time.Now()}
 				f.mu.Lock()
 				rm.Arrival = f.events
 				f.events++
@@ -279,6 +281,7 @@ func (f *FakeForward) serve(idx int, c net.Conn, at UpstreamAttempt) {
 				_ = c.SetWriteDeadline(time.Now().Add(2 * time.Second))
 				if _, werr := c.Write(ackBytes(msg.OptChunk)); werr == nil {
 					rm.Acked = true
+					rm.AckAt = time.Now()
 					rm.AckSeq = f.events
 					f.events++
 				}
